@@ -510,7 +510,7 @@ Section Load.
           then_ (None, es0) (then_ r1
             (let '(_, r2) := up_feature checked t "descriptors" true kp dt in
              then_ r2 (then_ (up_matches t kp)
-               (let '(_, r3) := up_feature checked t "global_features" true kp gt in
+               (let '(_, r3) := up_feature checked t "global_features" false kp gt in
                 then_ r3 (up_obs t kp)))))
       end in
     (match fst r with None => Value | Some e => Error e end, snd r).
